@@ -230,6 +230,26 @@ pub fn targets() -> Vec<Target> {
     zt!(v, belt_block::BeltBlock, "belt_block::BeltBlock", vec![32]);
     zt!(v, blowfish::Blowfish, "blowfish::Blowfish", (4..=56).collect());
     zt!(v, blowfish::BlowfishLE, "blowfish::BlowfishLE", vec![4, 8, 16, 33, 56]);
+    // bcrypt states: keyed only through the bcrypt entry points (never through KeyInit)
+    #[cfg(feature = "bcrypt")]
+    {
+        fn bc_salted(k: &[u8]) -> Option<blowfish::Blowfish> {
+            let mut b = blowfish::Blowfish::bc_init_state();
+            b.salted_expand_key(&k[..k.len() / 2 + 1], k);
+            Some(b)
+        }
+        fn bc_plain(k: &[u8]) -> Option<blowfish::Blowfish> {
+            let mut b = blowfish::Blowfish::bc_init_state();
+            b.bc_expand_key(k);
+            Some(b)
+        }
+        fn bc_salted_clone(k: &[u8]) -> Option<blowfish::Blowfish> {
+            bc_salted(k).map(|b| b.clone())
+        }
+        v.push(Target { name: "blowfish::Blowfish".into(), route: "bc_init_state+salted_expand_key", key_lens: vec![8, 21, 72], probe: |k| probe::<blowfish::Blowfish>(k, bc_salted, fp_both::<blowfish::Blowfish>) });
+        v.push(Target { name: "blowfish::Blowfish".into(), route: "bc_init_state+salted_expand_key+clone", key_lens: vec![16], probe: |k| probe::<blowfish::Blowfish>(k, bc_salted_clone, fp_both::<blowfish::Blowfish>) });
+        v.push(Target { name: "blowfish::Blowfish".into(), route: "bc_init_state+bc_expand_key", key_lens: vec![8, 21, 72], probe: |k| probe::<blowfish::Blowfish>(k, bc_plain, fp_both::<blowfish::Blowfish>) });
+    }
     zt!(v, camellia::Camellia128, "camellia::Camellia128", vec![16]);
     zt!(v, camellia::Camellia192, "camellia::Camellia192", vec![24]);
     zt!(v, camellia::Camellia256, "camellia::Camellia256", vec![32]);
